@@ -261,6 +261,8 @@ impl LocomotiveSimulation {
     pub fn walk(&mut self) -> anyhow::Result<()> {
         self.save_state();
         while self.i < self.power_trace.len() {
+            #[cfg(feature = "verif-hooks")]
+            crate::verif_hooks::yield_point();
             self.step()?
         }
         ensure!(self.i == self.power_trace.len());
@@ -328,6 +330,10 @@ impl LocomotiveSimulationVec {
     /// Calls `walk` for each locomotive in vec.
     pub fn walk(&mut self, parallelize: bool) -> anyhow::Result<()> {
         if parallelize {
+            #[cfg(feature = "verif-hooks")]
+            if let Some(res) = crate::verif_hooks::try_par_walk(&mut self.0) {
+                return res;
+            }
             self.0
                 .par_iter_mut()
                 .enumerate()
